@@ -54,6 +54,15 @@ static std::string handle(const std::vector<std::string>& a) {
       r += " is=" + is;
       // operator| must return the value when is<T>() and the default otherwise
       if ((v | (int)-7) != (v.is<int>() ? v.as<int>() : -7)) r += " OR-DIFFERS";
+      // an enumeration converts like int (Converter<T, is_enum>): as<E>() is as<int>() cast, is<E>() is is<int>()
+      { enum Color { Red = 0, Blue = 2 };
+        if ((int)v.as<Color>() != v.as<int>() || v.is<Color>() != v.is<int>()) r += " ENUM-DIFFERS";
+        JsonDocument ed; ed.set(Blue);
+        if (!ed.is<int>() || ed.as<int>() != 2 || ed.as<Color>() != Blue) r += " ENUM-SET-DIFFERS"; }
+      // as<bool>() of a stored integer is "non-zero"; as<int>() of a stored boolean is 0 / 1
+      if (a[2][0] == 'i' && v.as<bool>() != (a[2] != "i0" && a[2] != "i-0")) r += " BOOL-OF-INT-DIFFERS";
+      if ((a[2] == "t" || a[2] == "f") && (v.as<int>() != (a[2] == "t" ? 1 : 0) || !v.is<bool>() || v.is<int>())) r += " INT-OF-BOOL-DIFFERS";
+      if (a[2][0] == 'D' || a[2][0] == 'F') { double dv = v.as<double>(); if (dv == dv && v.as<bool>() != (dv != 0)) r += " BOOL-OF-FLOAT-DIFFERS"; }
       return true;
     };
     std::string r;
@@ -133,6 +142,31 @@ static std::string handle(const std::vector<std::string>& a) {
     if (a[1] == "8") { struct { char before[16]; char dst[8]; char after[16]; } b; return runs(b, 8); }
     if (a[1] == "16") { struct { char before[16]; char dst[16]; char after[16]; } b; return runs(b, 16); }
     return "bad-size";
+  }
+  // CAD <dump of an array of integers> : the other direction, copyArray(C array -> document / JsonArray / member): the
+  // document must then hold exactly those numbers (1-D from int[N], from pointer + length, 2-D from int[2][3], char[] as a string)
+  if (a[0] == "CAD" && a.size() == 2) {
+    JsonDocument src;
+    DumpParser p(a[1]);
+    if (!p.build(src.to<JsonVariant>())) return "bad-dump";
+    std::vector<long long> vals;
+    for (JsonVariantConst e : src.as<JsonArrayConst>()) vals.push_back(e.as<long long>());
+    std::string r;
+    { JsonDocument d; d["stale"] = 1; bool ok = copyArray(vals.data(), vals.size(), d);               // pointer + length -> document
+      r += std::string(ok ? "true " : "false ") + dump(d.as<JsonVariantConst>()); }
+    { JsonDocument d; JsonArray arr = d["m"].to<JsonArray>(); arr.add(0); bool ok = copyArray(vals.data(), vals.size(), arr);   // appends to a JsonArray
+      r += std::string(ok ? " true " : " false ") + dump(d.as<JsonVariantConst>()); }
+    { long long fixed[3] = {vals.size() > 0 ? vals[0] : 0, vals.size() > 1 ? vals[1] : 0, vals.size() > 2 ? vals[2] : 0};
+      JsonDocument d; bool ok = copyArray(fixed, d);                                                  // T(&)[N] -> document
+      r += std::string(ok ? " true " : " false ") + dump(d.as<JsonVariantConst>());
+      JsonDocument d3; bool ok3 = copyArray(fixed, d3["k"]);                                          // T(&)[N] -> member proxy
+      r += std::string(ok3 ? " true " : " false ") + dump(d3.as<JsonVariantConst>());
+      long long grid[2][3] = {{fixed[0], fixed[1], fixed[2]}, {fixed[2], fixed[1], fixed[0]}};
+      JsonDocument d2; bool ok2 = copyArray(grid, d2);                                               // T(&)[N1][N2] -> document
+      r += std::string(ok2 ? " true " : " false ") + dump(d2.as<JsonVariantConst>()); }
+    { char text[8] = "abc"; JsonDocument d; bool ok = copyArray(text, d[0]);                          // char[] is a string, not an array
+      r += std::string(ok ? " true " : " false ") + dump(d.as<JsonVariantConst>()); }
+    return r;
   }
   // CMP <dump a> <dump b>
   if (a[0] == "CMP" && a.size() == 3) {
